@@ -249,3 +249,198 @@ Section Bisect.
       lra.
   Qed.
 End Bisect.
+
+(* consequences for the design the bisection returns: when both ends of the multiplier interval have moved
+   ("the target volume is bracketed inside [l1init, l2init]") the returned design's volume differs from the
+   target by at most the volume difference across the final interval, whose length is <= l1l2tol *)
+Theorem bisect_volume_bracket (pr : @oc_params R) maxvol (x g : list R) fuel l1 l2 last a b xnew :
+  0 <= l1 <= l2 -> nonneg x -> nonpos g -> length g = length x ->
+  bisect ROOps pr maxvol x g fuel l1 l2 last = BisDone a b (Some xnew) -> a <> l1 -> b <> l2 ->
+  let vol := fun lam => osum ROOps (oc_xnew ROOps pr lam x g) in
+  l1 < a <= b /\ b < l2 /\ b - a <= l1l2tol pr /\
+  (xnew = oc_xnew ROOps pr a x g \/ xnew = oc_xnew ROOps pr b x g) /\
+  vol b <= maxvol < vol a /\ vol b <= osum ROOps xnew <= vol a /\
+  Rabs (osum ROOps xnew - maxvol) <= vol a - vol b.
+Proof.
+  intros [H0 Hle] Hx Hg Hlen E Ha Hb vol.
+  destruct (bisect_invariant pr maxvol x g fuel l1 l2 last a b (Some xnew) Hle E) as [P1 [P2 [P3 [P4 [_ [P6 [P7 P8]]]]]]].
+  destruct P6 as [P6 | P6]; [contradiction|]. destruct P7 as [P7 | P7]; [contradiction|].
+  assert (Hla : l1 < a) by lra. assert (Hbl : b < l2) by lra.
+  assert (Hanti : vol b <= vol a) by (apply volume_antitone; [lra | assumption..]).
+  fold (vol a) in P6. fold (vol b) in P7.
+  destruct P8 as [[_ [Ea _]] | [[Ex Hv] | [Ex Hv]]]; [contradiction | |]; injection Ex as ->.
+  - fold (vol a). repeat split; try lra; auto. apply Rabs_le. lra.
+  - fold (vol b). repeat split; try lra; auto. apply Rabs_le. lra.
+Qed.
+
+(* ------------------------------------------------------------------ the whole run *)
+Fixpoint chain (mv : R) (l : list (list R)) : Prop :=
+  match l with
+  | a :: ((b :: _) as t) => within_move mv a b /\ chain mv t
+  | _ => True
+  end.
+
+Lemma within_move_refl mv (x : list R) : 0 <= mv -> within_move mv x x.
+Proof. intros H. split; [reflexivity|]. intros j _. rewrite Rminus_diag_eq by reflexivity. rewrite Rabs_R0. exact H. Qed.
+
+Section Run.
+  Variable pr : @oc_params R.
+  Variable obs : nat -> list (pstate R) -> R * list (pstate R).
+  Variable maxvol : R.
+  Variable bfuel : nat.
+  Variables (vars : list (pstate R)) (vals0 : list R) (cum : list Z).
+  Hypothesis Hcat : concatenate_to_array vars = Some (vals0, cum).
+  Hypothesis Hmove : 0 <= move pr.
+  (* the network returns, for every variable, a sensitivity of the size of its state *)
+  Hypothesis obs_wf : forall it st g c,
+    concatenate_to_array (obtain_sensitivities ROOps (snd (obs it st)) st) = Some (g, c) ->
+    length g = length (concat (map pflat st)).
+
+  (* every design the run produces, in order: the design at each response() call and the final one *)
+  Definition all_designs (t : oc_trace) : list (list R) := map fst (designs t) ++ [final t].
+
+  Definition good (xval : list R) (states : list (pstate R)) (prev : option (list R)) : Prop :=
+    length xval = length vals0 /\ in_box pr xval /\ length states = length vars /\
+    concat (map pflat states) = xval /\ (prev = None \/ prev = Some xval).
+
+  Definition design_ok (d : list R * list (pstate R)) : Prop :=
+    in_box pr (fst d) /\ concat (map pflat (snd d)) = fst d /\ length (snd d) = length vars.
+
+  Lemma write_back_length nv (xn : list R) c : length (write_back nv xn c) = nv.
+  Proof. unfold write_back. rewrite map_length, seq_length. reflexivity. Qed.
+
+  Theorem oc_loop_invariant : forall n it xval states f prev, good xval states prev ->
+    let t := oc_loop ROOps pr obs maxvol bfuel cum n it xval states f prev in
+    Forall design_ok (designs t) /\
+    in_box pr (final t) /\ concat (map pflat (final_states t)) = final t /\
+    (exists L, all_designs t = xval :: L) /\ chain (move pr) (all_designs t).
+  Proof.
+    induction n as [|n IH]; intros it xval states f prev G; destruct G as [G1 [G2 [G3 [G4 G5]]]].
+    - cbn. split; [constructor|]. split; [exact G2|]. split; [exact G4|]. split; [exists []; reflexivity | exact I].
+    - cbn zeta. cbn [oc_loop].
+      set (fg := obs it states).
+      (* every early exit has the same shape *)
+      assert (Stop : forall (w : list bool) (s : oc_stop),
+                let t := cons_design xval states (mkTrace [] w s xval states) in
+                Forall design_ok (designs t) /\ in_box pr (final t) /\ concat (map pflat (final_states t)) = final t /\
+                (exists L, all_designs t = xval :: L) /\ chain (move pr) (all_designs t)).
+      { intros w s. cbn. split; [constructor; [unfold design_ok; cbn [fst snd]; auto | constructor]|].
+        split; [exact G2|]. split; [exact G4|]. split; [exists [xval]; reflexivity|].
+        split; [apply within_move_refl; exact Hmove | exact I]. }
+      destruct (oltb ROOps _ (tolf pr)); [apply (Stop [] StopTolF)|].
+      destruct (concatenate_to_array (obtain_sensitivities ROOps (snd fg) states)) as [[g c]|] eqn:Eg; [|apply (Stop [] StopValueError)].
+      assert (Hg : length (clip_grad ROOps g) = length xval).
+      { rewrite (proj2 (clip_grad_nonpos g)). rewrite (obs_wf it states g c Eg). rewrite G4. reflexivity. }
+      destruct (bisect ROOps pr maxvol xval (clip_grad ROOps g) bfuel (l1init pr) (l2init pr) prev) as [|a b lst] eqn:Eb.
+      { apply (Stop [_] StopOutOfFuel). }
+      destruct lst as [xn|]; [|apply (Stop [_] StopUnbound)].
+      (* the new design is either an OC update of xval or (body never ran) the old binding = xval *)
+      assert (Hxn : in_box pr xn /\ within_move (move pr) xval xn).
+      { assert (Cases : xn = xval \/ exists lam, xn = oc_xnew ROOps pr lam xval (clip_grad ROOps g)).
+        { clear -Eb G5.
+          assert (Gen : forall fuel l1 l2 last, bisect ROOps pr maxvol xval (clip_grad ROOps g) fuel l1 l2 last = BisDone a b (Some xn) ->
+                        last = Some xn \/ exists lam, xn = oc_xnew ROOps pr lam xval (clip_grad ROOps g)).
+          { induction fuel as [|fuel IHf]; intros l1 l2 last E; cbn [bisect] in E.
+            - destruct (oltb ROOps _ _); [discriminate|]. injection E as _ _ ->. left. reflexivity.
+            - destruct (oltb ROOps _ _); [|injection E as _ _ ->; left; reflexivity].
+              destruct (oltb ROOps _ _); (destruct (IHf _ _ _ E) as [H | H]; [right; eexists; injection H as <-; reflexivity | right; exact H]). }
+          destruct (Gen _ _ _ _ Eb) as [H | H]; [|right; exact H].
+          destruct G5 as [-> | ->]; [discriminate|]. injection H as ->. left. reflexivity. }
+        destruct Cases as [-> | [lam ->]].
+        - split; [exact G2 | apply within_move_refl; exact Hmove].
+        - apply oc_xnew_box; assumption. }
+      destruct Hxn as [Hbox Hmv].
+      destruct (oltb ROOps _ (tolx pr)); [apply (Stop [_] StopTolX)|].
+      assert (Hlen : length xn = length vals0) by (rewrite (proj1 Hmv); exact G1).
+      pose proof (write_back_roundtrip vars vals0 cum xn Hcat Hlen) as [Wb1 _].
+      assert (G' : good xn (write_back (length states) xn cum) (Some xn)).
+      { rewrite G3. unfold good. split; [exact Hlen|]. split; [exact Hbox|]. split; [apply write_back_length|].
+        split; [exact Wb1 | right; reflexivity]. }
+      specialize (IH (S it) xn (write_back (length states) xn cum) (fst fg) (Some xn) G').
+      cbn zeta in IH. destruct IH as [I1 [I2 [I3 [[L I4] I5]]]].
+      set (rec := oc_loop ROOps pr obs maxvol bfuel cum n (S it) xn (write_back (length states) xn cum) (fst fg) (Some xn)) in *.
+      cbn [cons_design cons_warn designs final final_states warns stop].
+      split; [constructor; [unfold design_ok; cbn [fst snd]; auto | exact I1]|].
+      split; [exact I2|]. split; [exact I3|].
+      unfold all_designs in *. cbn [designs cons_design cons_warn final map app fst].
+      split; [eexists; reflexivity|].
+      rewrite I4 in *. cbn [chain]. split; [exact Hmv | exact I5].
+  Qed.
+End Run.
+
+(* minimize_oc as a whole: every design it produces lies in the box, consecutive designs differ by at most
+   the move limit in every entry, and at every response() call the variable signals hold exactly the pieces
+   of the current design (write-back to the right signals) *)
+Theorem minimize_oc_invariant (pr : @oc_params R) obs maxvol bfuel vars t :
+  0 <= move pr ->
+  (forall it st g c, concatenate_to_array (obtain_sensitivities ROOps (snd (obs it st)) st) = Some (g, c) ->
+                     length g = length (concat (map pflat st))) ->
+  in_box pr (concat (map pflat vars)) ->
+  minimize_oc ROOps pr obs maxvol bfuel vars = Some t ->
+  Forall (design_ok pr vars) (designs t) /\
+  Forall (in_box pr) (all_designs t) /\ chain (move pr) (all_designs t) /\
+  concat (map pflat (final_states t)) = final t /\
+  hd_error (all_designs t) = Some (concat (map pflat vars)).
+Proof.
+  intros Hm Hobs Hbox. unfold minimize_oc.
+  destruct (concatenate_to_array vars) as [[vals0 cum]|] eqn:Hcat; [|discriminate].
+  intros E. injection E as <-.
+  assert (Hv : vals0 = concat (map pflat vars)).
+  { rewrite concatenate_spec in Hcat. destruct (no_none vars); [|discriminate]. injection Hcat as <- _. reflexivity. }
+  assert (G : good pr vars vals0 vals0 vars None).
+  { unfold good. split; [reflexivity|]. split; [rewrite Hv; exact Hbox|]. split; [reflexivity|].
+    split; [symmetry; exact Hv | left; reflexivity]. }
+  pose proof (oc_loop_invariant pr obs (match maxvol with Some v => v | None => osum ROOps vals0 end) bfuel vars vals0 cum Hcat Hm Hobs
+                (maxit pr) 0%nat vals0 vars 0 None G) as [I1 [I2 [I3 [[L I4] I5]]]].
+  cbn [o0 ROOps]. split; [exact I1|]. split.
+  - unfold all_designs in *. apply Forall_app. split; [|constructor; [exact I2 | constructor]].
+    apply Forall_map. eapply Forall_impl; [|exact I1]. intros d [H _]. exact H.
+  - split; [exact I5|]. split; [exact I3|]. rewrite I4, Hv. reflexivity.
+Qed.
+
+(* ------------------------------------------------------------------ fixed point for  f = sum c_i / x_i *)
+Lemma osum_map_scale (k : R) (f : R -> R) (c : list R) :
+  osum ROOps (map (fun ci => k * f ci) c) = k * fold_right Rplus 0 (map f c).
+Proof. induction c as [|a c IH]; cbn [map fold_right]; [unfold osum; cbn; lra|]. rewrite osum_cons, IH. lra. Qed.
+
+Lemma sum_sqrt_pos (c : list R) : (forall ci, In ci c -> 0 < ci) -> c <> [] -> 0 < fold_right Rplus 0 (map sqrt c).
+Proof.
+  intros Hc Hne. destruct c as [|a c]; [congruence|]. cbn [map fold_right].
+  assert (0 < sqrt a) by (apply sqrt_lt_R0, Hc; left; reflexivity).
+  assert (0 <= fold_right Rplus 0 (map sqrt c)).
+  { clear -Hc. induction c as [|b c IH]; cbn; [lra|].
+    assert (0 <= sqrt b) by apply sqrt_pos.
+    assert (0 <= fold_right Rplus 0 (map sqrt c)) by (apply IH; intros ci Hi; apply Hc; destruct Hi; [left; assumption | right; right; assumption]).
+    lra. }
+  lra.
+Qed.
+
+(* the analytic optimum x*_i = V sqrt(c_i) / sum_j sqrt(c_j) of  min sum c_i/x_i  s.t. sum x_i = V  is a fixed
+   point of the update with multiplier (sum_j sqrt(c_j) / V)^2, and it has volume V *)
+Theorem oc_fixed_point (pr : @oc_params R) (c : list R) (V : R) :
+  (forall ci, In ci c -> 0 < ci) -> c <> [] -> 0 < V -> 0 <= move pr ->
+  let S := fold_right Rplus 0 (map sqrt c) in
+  let xs := map (fun ci => V / S * sqrt ci) c in
+  let g := map (fun ci => - ci / (V / S * sqrt ci) ^ 2) c in
+  in_box pr xs ->
+  oc_xnew ROOps pr ((S / V) ^ 2) xs g = xs /\ osum ROOps xs = V.
+Proof.
+  intros Hc Hne HV Hm S xs g Hbox.
+  assert (HS : 0 < S) by (apply sum_sqrt_pos; assumption).
+  assert (Lx : length xs = length c) by (unfold xs; apply map_length).
+  assert (Lg : length g = length xs) by (unfold g, xs; rewrite !map_length; reflexivity).
+  split.
+  - apply nth_ext with (d := 0) (d' := 0); [apply oc_xnew_length; exact Lg|].
+    intros j Hj. rewrite oc_xnew_length in Hj by exact Lg. rewrite oc_xnew_nth by assumption.
+    apply oc_elem_fixed; [apply Hbox; exact Hj | exact Hm|].
+    assert (Hjc : (j < length c)%nat) by lia.
+    unfold xs, g. rewrite (nth_map_in (fun ci => V / S * sqrt ci) c j 0 0 Hjc).
+    rewrite (nth_map_in (fun ci => - ci / (V / S * sqrt ci) ^ 2) c j 0 0 Hjc).
+    set (ci := nth j c 0). assert (Hci : 0 < ci) by (apply Hc, nth_In; exact Hjc).
+    set (s := sqrt ci). assert (Hs : 0 < s) by (apply sqrt_lt_R0; exact Hci).
+    assert (Ess : ci = s * s) by (unfold s; rewrite sqrt_sqrt; lra).
+    replace (- (- ci / (V / S * s) ^ 2) / (S / V) ^ 2) with 1.
+    + rewrite sqrt_1. lra.
+    + rewrite Ess. field. repeat split; lra.
+  - unfold xs. rewrite (osum_map_scale (V / S) sqrt c). fold S. field. lra.
+Qed.
